@@ -72,7 +72,7 @@ def gen_graph(rng, n_ns=2, n_nodes=6, hostile=True, with_values=True, dangling=T
                 elif a in ("ParentNodeId", "MethodDeclarationId"):
                     attrs[a] = rng.choice(keys) if keys else (UA, "i", "85")
                     if dangling and rng.random() < 0.15: attrs[a] = (rng.choice(g.uris + [UA]), "i", str(9000 + rng.randint(0, 5)))     # a node no document defines
-                elif a in ("IsAbstract", "Symmetric", "Historizing"): attrs[a] = rng.choice(["true", "false"])
+                elif a in ("IsAbstract", "Symmetric", "Historizing"): attrs[a] = rng.choice(["true", "false", "true", "false", "1"])     # "1" is the other xs:boolean spelling of true
                 elif a == "ValueRank": attrs[a] = str(rng.choice([-3, -2, -1, 0, 1, 2, 3, 127, 128, 1000]))
                 elif a == "EventNotifier": attrs[a] = str(rng.choice([0, 1, 4, 5, 127, 128, 255]))
                 elif a in ("AccessLevel", "UserAccessLevel"): attrs[a] = str(rng.choice([0, 1, 3, 5, 127, 128, 255, 256, 65535, 4294967295]))
@@ -133,6 +133,8 @@ def serialise(g, rng, base_name="Opc.Ua.NodeSet2.xml", placement=None, file_name
         placement = [rng.choice(["src", "trg", "both"]) for _ in g.refs]
         for i in getattr(g, "force_both", []):
             if i < len(placement): placement[i] = "both"
+        for i, r_ in enumerate(g.refs):
+            if r_ in getattr(g, "force_src", ()): placement[i] = "src"
         for i, j in getattr(g, "mutual", []):
             if i < len(placement) and j < len(placement) and rng.random() < 0.7: placement[i], placement[j] = rng.choice([("src", "trg"), ("both", "both"), ("trg", "src")])
     parts = []
@@ -200,11 +202,15 @@ def serialise(g, rng, base_name="Opc.Ua.NodeSet2.xml", placement=None, file_name
                 # only the literal "false" turns a reference round: every other spelling (absent, true, the schema's "1", other capitalisations) is forward
                 fwd = None if (f and rng.random() < 0.5) else ((rng.choice(["true", "true", "1", "True", "TRUE"])) if f else "false")
                 refs.append((nid_text(ty, local, alias_of, rng), fwd, nid_text(o, local) + (rng.choice(["", " ", "\n      "]) if rng.random() < 0.2 else "")))
-            rng.shuffle(refs)
+            if k not in getattr(g, "ordered_refs", ()): rng.shuffle(refs)
             disp = [n["display"]] if n["display"] is not None else []
             # several DisplayName elements: the first one counts, also when it is empty
             if disp and (rng.random() < 0.1 or (disp[0].strip() == "" and rng.random() < 0.7)): disp.append("second display name")
-            nodes.append(dict(cls=n["cls"], attrs=attrs, display=disp, desc=n["desc"], refs=refs if (refs or rng.random() < 0.5) else None,
+            ext = None
+            if rng.random() < 0.12:
+                ext = ('<Extensions><Extension><References><Reference ReferenceType="i=47">i=%d</Reference><Reference ReferenceType="i=35" IsForward="false">ns=1;i=%d</Reference></References>'
+                       '<Note>kept by a modelling tool</Note></Extension></Extensions>') % (9900 + rng.randint(0, 9), 9900 + rng.randint(0, 9))
+            nodes.append(dict(cls=n["cls"], attrs=attrs, display=disp, desc=n["desc"], refs=refs if (refs or rng.random() < 0.5) else None, extensions=ext,
                               value=(value_xml(n["value"]) if n["value"] is not None and value_xml else None)))
         m = g.models.get(U)
         models = None
@@ -221,7 +227,7 @@ def serialise(g, rng, base_name="Opc.Ua.NodeSet2.xml", placement=None, file_name
     return out
 
 # ---------------------------------------------------------------------------------------------- enumerations (C11, C16, C17)
-def add_enums(g, rng, n_types=None, n_vars=None, flavours=None, kinds=None, placeholder=None, value_names=None):
+def add_enums(g, rng, n_types=None, n_vars=None, flavours=None, kinds=None, placeholder=None, value_names=None, version_prop=None):
     """adds the Enumeration data type to the base namespace, enum types (EnumStrings / EnumValues / no definition) and enum-typed variables.
        returns a description used by the oracles: dict(types={key: (flavour, mapping or None, name)}, vars={key: (type key, kind, value)})"""
     from opcua_tools import ua_data_types as T
@@ -237,12 +243,13 @@ def add_enums(g, rng, n_types=None, n_vars=None, flavours=None, kinds=None, plac
         name = "Enum%d" % i
         g.nodes[tk] = dict(cls="UADataType", bname=(uri, name), display=name, desc=None, attrs={}, value=None); g.order.append(tk)
         g.refs.append((enum_root, tk, (UA, "i", "45")))
-        mapping = None
-        if flavour != "none" and rng.random() < 0.4:
+        mapping = None; late_ref = None
+        if flavour != "none" and (rng.random() < 0.4 if version_prop is None else version_prop):
             # another property of the type, without a Value, referenced BEFORE the definition property (NodeVersion, a documentation property, ...)
             xk = (uri, "i", str(3300 + i))
             g.nodes[xk] = dict(cls="UAVariable", bname=(UA, "NodeVersion"), display="NodeVersion", desc=None, attrs={"DataType": (UA, "i", "12")}, value=None); g.order.append(xk)
             g.refs.append((tk, xk, (UA, "i", "46")))
+            if version_prop == "ref-after": late_ref = g.refs.pop()      # its NODE stands before the definition property, its REFERENCE is listed after the definition's
         if flavour == "strings":
             texts = [rng.choice(["Off", "On", "Auto", "a b", "é"]) + str(j) for j in range(rng.randint(1, 4))]
             # a reserved number: an entry without text in the middle of the array (the numbers of EnumStrings are positions)
@@ -263,6 +270,11 @@ def add_enums(g, rng, n_types=None, n_vars=None, flavours=None, kinds=None, plac
             val = T.UAListOf(items, "ExtensionObject")
             g.nodes[pk] = dict(cls="UAVariable", bname=(UA, "EnumValues"), display="EnumValues", desc=None, attrs={"DataType": (UA, "i", "24"), "ValueRank": "1"}, value=val); g.order.append(pk)
             g.refs.append((tk, pk, (UA, "i", "46")))
+        if late_ref:
+            # ... and both are declared on the type itself, in this order: the definition is the type's FIRST property in the document, the second in node order
+            g.refs.append(late_ref)
+            g.force_src = set(getattr(g, "force_src", ())) | {late_ref, (tk, (uri, "i", str(3100 + i)), (UA, "i", "46"))}
+            g.ordered_refs = set(getattr(g, "ordered_refs", ())) | {tk}
         desc["types"][tk] = (flavour, mapping, name)
     tks = list(desc["types"])
     if tks and rng.random() < 0.5:
@@ -280,8 +292,9 @@ def add_enums(g, rng, n_types=None, n_vars=None, flavours=None, kinds=None, plac
         if kind == "in": x = rng.choice(inside); val = T.UAInt32(x)
         elif kind == "out": x = max(inside) + 1000; val = T.UAInt32(x)
         elif kind == "list": x = [rng.choice(inside), rng.choice(inside)]; val = T.UAListOf(tuple(T.UAInt32(y) for y in x), "Int32")
+        elif kind == "empty": x = None; val = T.UAInt32(None)          # <Int32/>: a value element that is present but empty
         else: x = None; val = None
-        g.nodes[vk] = dict(cls="UAVariable", bname=(uri, "EnumVar%d" % i), display="EnumVar%d" % i, desc=None, attrs={"DataType": tk}, value=val); g.order.append(vk)
+        g.nodes[vk] = dict(cls="UAVariable", bname=(uri, "EnumVar%d" % i), display="EnumVar%d" % i, desc=None, attrs={"DataType": tk}, value=val, keep_datatype=True); g.order.append(vk)
         desc["vars"][vk] = (tk, kind, x)
     return desc
 
